@@ -1,10 +1,93 @@
 import Driver.Common
-/-! C08 driver (stub: answers bad-op until the property's model is wired in). -/
+import Sourmash.Model.Gather
+import Sourmash.Spec.Gather
+/-! C08 driver: disk gather loop + statistics (model column) and the naive greedy cover (spec column).
+Request lines: see harness/src/bin/c08.rs. -/
 open Driver
 
-def stepC08 (s : Unit) (ws : List String) : Unit × Resp :=
+structure S08 where
+  scaled : Nat := 1
+  track : Bool := false
+  dsets : List (List Nat) := []
+  q : List (Nat × Nat) := []
+
+def hex16 (x : UInt64) : String :=
+  String.ofList ((List.range 16).map (fun i => hexDigit ((x.toNat >>> (4 * (15 - i))) % 16)))
+
+/-- `a as f64 / b as f64` -/
+def ratio (p : Nat × Nat) : Float := Float.ofNat p.1 / Float.ofNat p.2
+
+def bitsOf (x : Float) : String := hex16 x.toBits
+def rbits (p : Nat × Nat) : String := bitsOf (ratio p)
+
+/-- `ani_from_containment(c, ksize = 21)` -/
+def ani (c : Float) : Float :=
+  if c == 0.0 then 0.0 else if c == 1.0 then 1.0 else 1.0 - (1.0 - Float.pow c (1.0 / 21.0))
+
+/-- `f64::max` -/
+def fmax (a b : Float) : Float := if a.isNaN then b else if b.isNaN then a else if a < b then b else a
+
+/-- `stats::stddev` (streaming-stats `OnlineStats::add` per sample, then `variance.sqrt()`) -/
+def stddev (xs : List Nat) : Float :=
+  let (_, _, var) := xs.foldl (fun (acc : Nat × Float × Float) x =>
+    let (size, mean, var) := acc
+    let sample := Float.ofNat x
+    let oldmean := mean
+    let prevq := var * Float.ofNat size
+    let size := size + 1
+    let mean := mean + (sample - oldmean) / Float.ofNat size
+    let var := (prevq + (sample - oldmean) * (sample - mean)) / Float.ofNat size
+    (size, mean, var)) (0, 0.0, 0.0)
+  var.sqrt
+
+def joinRows (rows : List String) : String := if rows.isEmpty then "-" else ";".intercalate rows
+
+def showRow (track : Bool) (r : Gather.Row) : String :=
+  let qa := ani (ratio r.fOrig)
+  let ma := ani (ratio r.fMatchOrig)
+  ",".intercalate [s!"d{r.d}", toString r.rank, toString r.intersectBp, toString r.uniqueBp,
+    toString r.remainingBp, toString r.nUniqueW, toString r.sumW, toString r.totalW,
+    rbits r.fOrig, rbits r.fMatch, rbits r.fUnique, rbits r.fUniqueW, rbits r.fMatchOrig,
+    rbits r.avgAbund, rbits r.medianAbund, bitsOf (if track then stddev r.abunds else 0.0),
+    bitsOf qa, bitsOf ma, bitsOf ((qa + ma) / 2.0), bitsOf (fmax qa ma)]
+
+def cfgOf (s : S08) (t : Nat) : Gather.Cfg :=
+  { dsets := s.dsets, scaled := s.scaled, threshold := t, track := s.track, orig := s.q }
+
+def stepC08 (s : S08) (ws : List String) : S08 × Resp :=
   match ws with
-  | "case" :: _ => (s, { model := "ok" })
+  | "case" :: rest =>
+    let sc := (rest.getD 1 "1").toNat!
+    let tr := rest.getD 2 "0" == "1"
+    ({ scaled := sc, track := tr }, { model := "ok" })
+  | ["d", hs] => ({ s with dsets := s.dsets ++ [natList hs] }, { model := "ok" })
+  | "q" :: hs :: rest =>
+    let hs := natList hs
+    let ab := natList (rest.getD 0 "-")
+    let ab := if s.track && ab.length == hs.length then ab else hs.map (fun _ => 1)
+    ({ s with q := hs.zip ab }, { model := "ok" })
+  | [op, t] =>
+    let t := t.toNat!
+    if s.dsets.isEmpty then (s, { model := "no-datasets" }) else
+    let rows := Gather.gather (cfgOf s t)
+    let ms := GatherSpec.cover s.dsets t (s.q.map (·.1))
+    let st := GatherSpec.stats s.scaled s.q ms
+    if op == "gather" then
+      (s, { model := joinRows (rows.map (showRow s.track)) })
+    else if op == "cover" then
+      (s, { model := joinRows (rows.map (fun r => s!"d{r.d}:{r.isect.length}:{rbits r.fMatch}")),
+            spec := joinRows (ms.map (fun m =>
+              s!"d{m.d}:{m.isect.length}:{rbits (m.overlap, (s.dsets.getD m.d []).length)}")) })
+    else if op == "stats" then
+      (s, { model := joinRows (rows.map (fun r => s!"{r.rank}:{r.uniqueBp}:{r.remainingBp}:{rbits r.fUnique}")),
+            spec := joinRows (st.map (fun x => s!"{x.rank}:{x.uniqueBp}:{x.remainingBp}:{rbits x.fUnique}")) })
+    else if op == "wstats" then
+      (s, { model := joinRows (rows.map (fun r => s!"{r.nUniqueW}:{r.sumW}:{r.totalW}:{rbits r.fUniqueW}")),
+            -- the property speaks about weighted figures of queries that carry abundances
+            spec := if s.track then
+                joinRows (st.map (fun x => s!"{x.nUniqueW}:{x.sumW}:{x.totalW}:{rbits x.fUniqueW}"))
+              else "-" })
+    else (s, { model := "bad-op" })
   | _ => (s, { model := "bad-op" })
 
-def main : IO Unit := Driver.run () stepC08
+def main : IO Unit := Driver.run ({} : S08) stepC08
